@@ -273,6 +273,10 @@ def judge(opname, fixture, plan, out, pid, clean_value, acc):
         acc.count("values_returned_under_fault")
         if clean_value is not None and not shape_compatible(val, clean_value):
             viols.append((f"malformed_value:{opname}", desc + f" clean={str(clean_value)[:120]}"))
+        elif opname == "threads" and isinstance(val, (list, tuple)) and len(val) == 0:
+            # every process has at least one thread: an empty list is not a well-formed answer (it is what is left when
+            # the last thread's record could not be read and nothing re-checked that the process is still there)
+            viols.append(("malformed_value:threads:empty_list", desc + f" clean={str(clean_value)[:120]}"))
         elif (clean_value is not None and opname in EXACT_UNDER_FAULT and fired_actions and own_targets
               and all(a in ("EACCES", "EPERM", "vanish") for a in fired_actions)):
             # a fault that is survived (documented fall-back, or it struck after the data was read) must not change
@@ -449,8 +453,9 @@ def plan(tier, seed):
     names = [n for n, _ in ops_names()]
     shards = [dict(kind="shimdiff")]
     for fixture in ("live", "zombie", "kthread"):
-        for chunk in range(0, len(names), 4 if fixture != "kthread" else 8):
-            shards.append(dict(kind="enum", fixture=fixture, ops=names[chunk:chunk + 4], tier=tier))
+        step = 4 if fixture != "kthread" else 8
+        for chunk in range(0, len(names), step):
+            shards.append(dict(kind="enum", fixture=fixture, ops=names[chunk:chunk + step], tier=tier))
     return shards
 
 
